@@ -344,6 +344,16 @@ def run_case(text, pred, strategy, jobs, sched, rec, case, check_fixed=True):
                             f'{" ".join(final)} gives accepted '
                             f'{" ".join(tokens(cand))}')
                     break
+            # C02, second sentence, literally: running the hierarchical
+            # strategy again on its own result is unable to minimise it
+            # (independent of how the passes are put together: whatever
+            # instance of whatever mutator a pass holds gets its turn)
+            n_writes = len(mon.writes)
+            again, _ntests = strategy_hierarchical.reduce(list(res))
+            if tokens(again) != final or len(mon.writes) != n_writes:
+                mon.bad('C02/orch/second-run-is-unable-to-minimise',
+                        f'a second hierarchical run on {" ".join(final)} '
+                        f'reduces it to {" ".join(tokens(again))}')
     finally:
         for mod, name, val in reversed(patches):
             setattr(mod, name, val)
@@ -380,11 +390,32 @@ INPUTS = {
     'rename-dep': '(declare-const aa Bool)\n(declare-const bb Bool)\n',
     # eliminating x inserts one (g y) object at three positions; the next
     # task of the same ddmin level eliminates y inside them
+    # the two first asserts can only go together, and only once a later pass
+    # has removed (and p q): a proposal that only 'binary reduction (assert)'
+    # makes - halves of the assert commands, not contiguous at top level
+    'assert-halves': '(declare-const p Bool)\n(declare-const q Bool)\n'
+                     '(assert p)\n(check-sat)\n(assert p)\n(check-sat)\n'
+                     '(assert p)\n(check-sat)\n(assert (and p q))\n'
+                     '(check-sat)\n',
     'elim-chain': '(declare-const x Int)\n(declare-const y Int)\n'
                   '(declare-fun g (Int) Int)\n'
                   '(declare-fun p (Int Int) Bool)\n(assert (= x (g y)))\n'
                   '(assert (= y 3))\n(assert (p x x))\n',
 }
+
+def _assert_halves(text):
+    segs = text.split('( check-sat )')
+
+    def has(seg):
+        return '( assert' in seg
+
+    return (len(segs) == 5 and has(segs[0]) == has(segs[1]) and
+            has(segs[2]) and has(segs[3]) and
+            ('( and p q )' not in text or has(segs[0])))
+
+
+# inputs that are only meaningful with their own command
+PAIRED = {'assert-halves': 'assert-halves'}
 
 PREDS = {
     'has-x': lambda tk: 'x' in tk,
@@ -396,6 +427,7 @@ PREDS = {
     'rename-dep': lambda tk: tk.count('declare-const') == 2 and
     tk.count('Bool') == 2 and len(tk) == 10 and
     ('aa' in tk or 'bb' not in tk),
+    'assert-halves': lambda tk: _assert_halves(' '.join(tk)),
     # accepts everything but two particular intermediate forms
     'elim-chain': lambda tk: '( = ( g y ) ( g 3 ) )' not in ' '.join(tk) and
     '( = y y )' not in ' '.join(tk) and 'p' in tk,
@@ -442,6 +474,9 @@ def main():
     for strat in strategies:
         for iname in INPUTS:
             for pname in PREDS:
+                if (iname in PAIRED or pname in PAIRED.values()) and \
+                        PAIRED.get(iname) != pname:
+                    continue
                 for jobs in (1, 3):
                     combos.append((strat, iname, pname, jobs))
     for strat, iname, pname, jobs in combos:
